@@ -64,6 +64,8 @@ def cuts_fixes(cfg, tier, seed):
 PROPS['C01'] = dict(
     obligations=[
         L('c01_step', 'k_c01_step_{cfg}', QUICK, ALL, fixes=cuts_fixes),
+        L('c01_batch_eq_loop', 'k_c01_batch_{cfg}', ['u8_u16_p4', 'u32_u64_p24'], ['u8_u16_p4', 'u8_u16_p8', 'u16_u32_p12', 'u32_u64_p24'], cap=dict(quick=60, thorough=600)),
+        L('c01_batch_dec_eq_loop', 'k_c01_batch_dec_{cfg}', ['u8_u16_p4', 'u32_u64_p24'], ['u8_u16_p4', 'u16_u32_p12', 'u32_u64_p24'], cap=dict(quick=60, thorough=600)),
         K('c01_ctor_u8_u16', 'ans', 'ctor_u8_u16'), K('c01_ctor_u16_u32', 'ans', 'ctor_u16_u32'), K('c01_ctor_u32_u64', 'ans', 'ctor_u32_u64'),
         K('c01_ctor_u8_u32', 'ans', 'ctor_u8_u32', tiers=('thorough',)),
         K('c01_export_u8_u16', 'ans', 'export_u8_u16'), K('c01_export_u16_u32', 'ans', 'export_u16_u32'), K('c01_export_u32_u64', 'ans', 'export_u32_u64'),
@@ -108,6 +110,7 @@ PROPS['C02'] = dict(
         L('c02_fresh_k2', 'k_c02_fresh_k2_{cfg}', ['u8_u16_p4'], ['u8_u16_p4', 'u8_u16_p8', 'u8_u32_p8', 'u16_u32_p12', 'u32_u64_p24'], cap=dict(quick=90, thorough=600)),
         L('c02_fresh_k3', 'k_c02_fresh_k3_{cfg}', [], ['u8_u16_p8'], cap=dict(quick=90, thorough=900)),
         L('c02_step_inv', 'k_c02_step_inv_{cfg}', RQ, RALL, soft=INV_SOFT, fixes=range_fixes),
+        L('c02_inverted_step_ref', 'k_c06_range_inv_{cfg}', ['u8_u16_p4', 'u16_u32_p12', 'u32_u64_p24'], ['u8_u16_p4', 'u8_u16_p8', 'u16_u32_p12', 'u16_u32_p16', 'u32_u64_p24'], fixes=range_fixes),
         K('c02_rt_k1_u8_u16_p4_cbmc', 'kk', 'c02_rt_k1_u8_u16_p4', tq=600),
         K('c02_rt_k1_u8_u16_p8_cbmc', 'kk', 'c02_rt_k1_u8_u16_p8', tq=900),
         K('c02_rt_k2_u8_u16_p8_cbmc', 'kk', 'c02_rt_k2_u8_u16_p8', tiers=('thorough',), tt=7200),
@@ -148,6 +151,7 @@ CH_ALL = ['u8_u16_p4', 'u8_u16_p8', 'u8_u32_p8', 'u16_u32_p12', 'u16_u32_p16', '
 PROPS['C13'] = dict(
     obligations=[
         L('c13_step', 'k_c13_step_{cfg}', CH_Q, CH_ALL, soft=[20, 21], fixes=cuts_fixes),
+        L('c13_step2', 'k_c13_step2_{cfg}', ['u8_u16_p4'], ['u8_u16_p4', 'u8_u16_p8', 'u16_u32_p12', 'u32_u64_p24'], cap=dict(quick=90, thorough=600)),
         L('c13_heads_io', 'k_c13_io_{cfg}', ['u8_u16_p4', 'u8_u16_p8', 'u16_u32_p12', 'u32_u64_p24'], ['u8_u16_p4', 'u8_u16_p8', 'u8_u32_p8', 'u16_u32_p12', 'u32_u64_p24']),
         L('c13_precision', 'k_c13_prec_{cfg}', ['u8_u16_p4_p8', 'u8_u16_p8_p3', 'u16_u32_p12_p16', 'u32_u64_p24_p8'],
           ['u8_u16_p4_p8', 'u8_u16_p8_p3', 'u16_u32_p12_p16', 'u16_u32_p12_p5', 'u32_u64_p24_p32', 'u32_u64_p24_p8'], soft=[20]),
@@ -176,6 +180,9 @@ PROPS['C09'] = dict(
     obligations=[
         L('c09_ans', 'k_c09_ans_{cfg}', ['u8_u16_p4', 'u8_u16_p8', 'u16_u32_p12', 'u32_u64_p24'], soft=[20], fixes=cuts_fixes),
         L('c09_chain', 'k_c09_chain_{cfg}', ['u8_u16_p4', 'u8_u16_p8', 'u16_u32_p12', 'u32_u64_p24']),
+        K('c09_quantizer_wide_symbol', 'models', 'quantizer_wide_symbol_none', tq=600),
+        K('c09_uniform_wide_symbol_p8', 'models', 'uniform_u8_p8', tq=600), K('c09_uniform_wide_symbol_p5', 'models', 'uniform_u8_p5', tq=600),
+        K('c09_contiguous_outside_none', 'models', 'fixed_contiguous_p4', tq=1500),
     ],
     bounds='one failing encode (impossible symbol, or write fault at a symbolic point of a bounded sink) after one successful encode from ANY invariant state; observational oracle: '
            'the earlier symbol still decodes and a further encode/decode round trip succeeds; out-of-support symbols over the full symbol type for every model family (Kani harnesses)',
@@ -192,6 +199,7 @@ PROPS['C06'] = dict(
         L('c06_range_ref_k2', 'k_c06_range_k2_{cfg}', ['u8_u16_p4'], ['u8_u16_p4', 'u8_u16_p8', 'u16_u32_p12'], cap=dict(quick=60, thorough=600)),
         L('c06_range_ref_k3', 'k_c06_range_k3_{cfg}', [], ['u8_u16_p8'], cap=dict(quick=60, thorough=900)),
         L('c06_range_ref_state_k1', 'k_c06_range_state_k1_{cfg}', ['u8_u16_p4', 'u8_u16_p8', 'u16_u32_p12', 'u32_u64_p24'], fixes=range_fixes),
+        L('c06_range_ref_inverted', 'k_c06_range_inv_{cfg}', ['u8_u16_p4', 'u16_u32_p12', 'u32_u64_p24'], ['u8_u16_p4', 'u8_u16_p8', 'u16_u32_p12', 'u16_u32_p16', 'u32_u64_p24'], fixes=range_fixes),
         L('c06_range_ref_state_k2', 'k_c06_range_state_k2_{cfg}', [], ['u8_u16_p4', 'u8_u16_p8', 'u16_u32_p12'], cap=dict(quick=60, thorough=900)),
     ],
     bounds='differential against reference models (textbook rANS; exact wide-integer range coding with the documented sealing rule, no held-back-word bookkeeping): k <= 3 symbols '
@@ -204,7 +212,7 @@ PROPS['C06'] = dict(
 PROPS['C12'] = dict(
     obligations=[
         L('c12_ans_step', 'k_c12_ans_{cfg}', ['u8_u16_p4', 'u8_u16_p8', 'u16_u32_p12', 'u32_u64_p24'], ['u8_u16_p4', 'u8_u16_p8', 'u8_u32_p8', 'u16_u32_p12', 'u16_u32_p16', 'u16_u64_p16', 'u32_u64_p24', 'u32_u64_p32'], fixes=cuts_fixes),
-        L('c12_range_step', 'k_c12_range_{cfg}', ['u8_u16_p4', 'u16_u32_p12', 'u32_u64_p24'], ['u8_u16_p4', 'u8_u16_p8', 'u8_u32_p8', 'u16_u32_p12', 'u16_u32_p16', 'u32_u64_p24', 'u32_u64_p32'], fixes=range_fixes, cap=dict(quick=60, thorough=300)),
+        L('c12_range_step', 'k_c12_range_{cfg}', ['u8_u16_p4', 'u8_u32_p8', 'u16_u32_p12', 'u32_u64_p24'], ['u8_u16_p4', 'u8_u16_p8', 'u8_u32_p8', 'u16_u32_p12', 'u16_u32_p16', 'u32_u64_p24', 'u32_u64_p32'], fixes=range_fixes, cap=dict(quick=60, thorough=300)),
         L('c12_words_k1', 'k_c12_words_k1_{cfg}', ['u8_u16_p4', 'u16_u32_p12']),
         L('c12_words_k2', 'k_c12_words_k2_{cfg}', ['u8_u16_p4'], ['u8_u16_p4', 'u8_u16_p8'], cap=dict(quick=60, thorough=600)),
         L('c12_words_k3', 'k_c12_words_k3_{cfg}', [], ['u8_u16_p4'], cap=dict(quick=60, thorough=900)),
@@ -224,7 +232,7 @@ PROPS['C16'] = dict(
         K('c16_expgolomb_u16', 'bits', 'expgolomb_u16', tiers=('thorough',), tt=3600),
         K('c16_expgolomb_coders', 'bits', 'expgolomb_through_coders', tiers=('thorough',), tt=7200),
     ],
-    bounds='Word=u8 over the real Vec<u8>: symbolic scripts of 8 write/read operations; every bit string of <= 17 bits (all fill levels of the last word: 0,7,8,9,...,17) for '
+    bounds='Word=u8 over the real Vec<u8>: symbolic scripts of 6 write/read operations starting from ANY imported content of <= 2 words (any fill level); every bit string of <= 17 bits (all fill levels of the last word: 0,7,8,9,...,17) for '
            'export/re-import and FIFO order; Exp-Golomb over ALL values of u8 and u16 (incl. MAX), truncated codewords at every cut point',
     outside='Word types other than u8 (the coders are generic and only shift/mask within one word); bit strings longer than 17 bits; Exp-Golomb for u32/u64 (same code, loop bounds 65/129)',
     assumptions=[],
